@@ -1,6 +1,7 @@
 //! C19 — pools exist only with in-bound parameters and over supported token mints.
 //! The table / function-level part lives in `c19_fn` (mint admission over all extension subsets x badge states, setters over all
-//! u16, validate_constants cross product, end-to-end pool / reward creation); the instruction-sequence search in `c19_seq`.
+//! u16, validate_constants cross product, end-to-end pool / reward creation); the instruction-sequence search in `c19_seq`;
+//! the search over the administration of token badges (who issued the badge a gated mint is admitted with) in `c19_badge`.
 use crate::report::{Ctx, Report};
 use serde_json::Value;
 
@@ -12,6 +13,9 @@ pub fn run(ctx: &Ctx) -> Report {
     r.set("exhaustive", false);
     r.set("rule", r.coverage.get("fn_rule").cloned().unwrap_or(Value::Null));
     if r.violations.is_empty() {
+        super::c19_badge::run_badge(ctx, &mut r);
+    }
+    if r.violations.is_empty() {
         super::c19_seq::run_seq(ctx, &mut r);
     }
     r.assume("svm-lite faithfully replaces the validator (DESIGN §2.1); sequence search: alphabet of bound-straddling arguments, depth as reported");
@@ -20,6 +24,9 @@ pub fn run(ctx: &Ctx) -> Report {
 
 pub fn replay(case: &Value) -> Result<(), String> {
     if let Some(x) = super::c19_fn::replay_fn(case) {
+        return x;
+    }
+    if let Some(x) = super::c19_badge::replay_badge(case) {
         return x;
     }
     if let Some(x) = super::c19_seq::replay_seq(case) {
